@@ -117,6 +117,12 @@ def run(ctx, res):
         body = ('prefixes:\n  ex: http://ex.org/\nmappings:\n  tm:\n    sources:\n      - [d.csv~csv]\n    s: ex:r/$(id)\n    po:\n      - p: ex:p\n        o:\n          value: $(c1)\n          language: %s\n'
                 '      - p: ex:q\n        o:\n          value: %s\n' % (lang, val))
         return raw(name, {'d.csv': data, 'm.yml': head + body}, 'm.yml')
+    # a prefix declared by one YARRRML file (doi:) is not defined for a later file that does not declare it
+    y_decl = yar('yaml-prefix-declared', '', 'en', 'doi:10.1/x')
+    y_decl['raw']['files']['m.yml'] = y_decl['raw']['files']['m.yml'].replace('prefixes:\n', 'prefixes:\n  doi: http://doi.org/\n  orcid: https://orcid.org/\n')
+    for val in ('doi:10.1/x', 'orcid:0000-0001'):
+        y_use = yar('yaml-prefix-undeclared:' + val, '', 'en', val)
+        seqs.append([copy.deepcopy(y_use), copy.deepcopy(y_decl), copy.deepcopy(y_use)])
     y11 = yar('yaml-1.1', '%YAML 1.1\n---\n', 'en', 'plain')
     for lang, val in (('no', 'on'), ('en', 'y'), ('no', '012'), ('fr', '12:30:00')):
         y = yar('yaml-plain:%s:%s' % (lang, val), '', lang, val)
